@@ -366,7 +366,7 @@ impl Prop for C05 {
         "exploration"
     }
     fn rule(&self) -> &'static str {
-        "cases drawn from the run seed: two line texts (few distinct lines, repeats, LF/CRLF/lone-CR terminators, missing final newline, empty, header-like and marker-like contents, invalid UTF-8 in byte mode), algorithm, radius 0..=5, header on/off, str or [u8]; the diff is rendered into an all-accepting sink (reference R) and through Display, per hunk and whole; R is parsed and strictly applied by an independent applier; then UnifiedDiff::to_writer and UnifiedDiffHunk::to_writer are executed against simulated sinks (byte-at-a-time, random short writes, EINTR bursts, mixed; hard faults Ok(0)/ENOSPC/WouldBlock: the error value is not judged, but Ok must mean every byte arrived and accepted bytes must be a prefix of R) and otherwise the accepted bytes must equal R with Ok returned. evaluations = renderings + sink executions; distinct non-trivial = distinct (sink event log, accepted bytes) among sink executions in which at least one short write or EINTR actually fired"
+        "cases drawn from the run seed: two line texts (few distinct lines, repeats, LF/CRLF/lone-CR terminators, missing final newline, empty, header-like and marker-like contents, invalid UTF-8 in byte mode), algorithm, radius 0..=5 and rarely huge radii up to usize::MAX, header on/off, str or [u8]; the diff is rendered into an all-accepting sink (reference R) and through Display, per hunk and whole; R is parsed and strictly applied by an independent applier; then UnifiedDiff::to_writer and UnifiedDiffHunk::to_writer are executed against simulated sinks (byte-at-a-time, random short writes, EINTR bursts, mixed; hard faults Ok(0)/ENOSPC/WouldBlock: the error value is not judged, but Ok must mean every byte arrived and accepted bytes must be a prefix of R) and otherwise the accepted bytes must equal R with Ok returned. evaluations = renderings + sink executions; distinct non-trivial = distinct (sink event log, accepted bytes) among sink executions in which at least one short write or EINTR actually fired"
     }
     fn fault_names(&self) -> Vec<&'static str> {
         vec![
@@ -434,7 +434,12 @@ impl Prop for C05 {
             .collect();
         Case {
             text,
-            radius: *rng.pick(&[0usize, 0, 1, 1, 2, 3, 3, 5]),
+            // mostly small radii; rarely "all the context there is"
+            radius: if rng.chance(1, 40) {
+                *rng.pick(&[usize::MAX, usize::MAX / 2 + 1, usize::MAX / 2, 1usize << 40, 1000])
+            } else {
+                *rng.pick(&[0usize, 0, 1, 1, 2, 3, 3, 5])
+            },
             header,
             hint: !rng.chance(1, 10),
             writers,
@@ -473,8 +478,10 @@ impl Prop for C05 {
         }
         if case.radius > 0 {
             let mut c = case.clone();
-            c.radius = case.radius - 1;
-            out.push(c);
+            c.radius = if case.radius > 1000 { case.radius / 2 + 1 } else { case.radius - 1 };
+            if c.radius != case.radius {
+                out.push(c);
+            }
         }
         for (i, w) in case.writers.iter().enumerate() {
             if w.kind != 1 && w.kind != 0 {
